@@ -356,3 +356,91 @@ pub fn fold_overwrite_bad(tags: &[Mask]) -> Vec<u8> {
     }
     mask
 }
+
+
+// ---------------------------------------------------------------------------------------------------------
+// E-bounds: index / range operations proven in bounds, or reported when the index derives from input (C02.R3)
+// ---------------------------------------------------------------------------------------------------------
+pub fn bounds_guarded_ok(data: &[u8]) -> Option<u8> {
+    if data.len() < 2 {
+        return None;
+    }
+    let n = data[0] as usize;
+    if data.len() < 1 + n + 1 {
+        return None;
+    }
+    let s = &data[1..1 + n];
+    Some(data[1 + n] ^ (s.len() as u8))
+}
+
+/// the guard covers `off + n`, then `off` advances by `n`: `data[off]` may be one past the end
+pub fn bounds_stale_guard_bad(data: &[u8]) -> Option<u8> {
+    if data.len() < 2 {
+        return None;
+    }
+    let n = data[0] as usize;
+    let mut off = 1;
+    if data.len() < off + n {
+        return None;
+    }
+    let _s = &data[off..off + n];
+    off += n;
+    Some(data[off])
+}
+
+pub fn bounds_unguarded_bad(data: &[u8]) -> u8 {
+    if data.is_empty() {
+        return 0;
+    }
+    let n = data[0] as usize;
+    data[n]
+}
+
+fn key_at(data: &[u8], ks: usize) -> [u8; 16] {
+    let mut k = [0u8; 16];
+    k[..ks].copy_from_slice(&data[..ks]);
+    k
+}
+
+/// the helper's precondition `ks <= 16` is nobody's business here
+pub fn bounds_callee_pre_bad(data: &[u8]) -> Option<[u8; 16]> {
+    if data.is_empty() {
+        return None;
+    }
+    let ks = data[0] as usize;
+    if data.len() < 1 + ks {
+        return None;
+    }
+    Some(key_at(&data[1..], ks))
+}
+
+pub fn bounds_callee_pre_ok(data: &[u8]) -> Option<[u8; 16]> {
+    if data.is_empty() {
+        return None;
+    }
+    let ks = data[0] as usize;
+    if ks > 16 || data.len() < 1 + ks {
+        return None;
+    }
+    Some(key_at(&data[1..], ks))
+}
+
+// ---------------------------------------------------------------------------------------------------------
+// E-err: the error of a persistence step is not swallowed behind a success return (C04.R6 / C10.R4)
+// ---------------------------------------------------------------------------------------------------------
+pub fn persist_propagate_ok(path: &Path, data: &[u8]) -> std::io::Result<()> {
+    std::fs::write(path, data)?;
+    Ok(())
+}
+
+pub fn persist_swallow_bad(path: &Path, data: &[u8]) -> std::io::Result<()> {
+    if let Err(e) = std::fs::write(path, data) {
+        eprintln!("could not persist: {e}");
+    }
+    Ok(())
+}
+
+pub fn persist_discard_bad(path: &Path, data: &[u8]) -> std::io::Result<()> {
+    let _ = std::fs::write(path, data);
+    Ok(())
+}
